@@ -21,17 +21,11 @@ def batch(batch_size):
         An observable emiting the source items batched in groups of batch_size.
     '''
     def _batch(acc, i):
-        if acc[1] is True:
-            return ([i], False)
-        else:
-            b = acc[0]
-            b.append(i)
-            if len(b) == batch_size:            
-                return (b, True)
-        
-            return (b, False)
-    
-    def _terminate(acc): return (acc[0], True)
+        b = [] if acc[1] is True else acc[0]
+        b.append(i)
+        return (b, len(b) == batch_size)
+
+    def _terminate(acc): return (acc[0], acc[1] is False and len(acc[0]) > 0)
 
     return rx.pipe(
         rs.ops.scan(_batch, seed=([], False), terminator=_terminate),
